@@ -125,7 +125,7 @@ pub fn run(a: &Args) -> i32 {
     let mut rep = Report::new(
         "C13",
         a,
-        "every type expression with list depth <= 4 (62 shapes: all placements of `!`) x 9 named kinds x positions {response field, field of an object that narrows the interface's declaration, variable, input field, @oneOf member} x {SDL, introspection JSON} x {plain, default values on input fields, normalization rust, literal @include / @skip directives on the selections}; a case is one (shape, kind, position, format) whose emitted Rust type was read with syn and compared with the rule; non-trivial = at least one list level or a non-null marker",
+        "every type expression with list depth <= 4 (62 shapes: all placements of `!`) x 9 named kinds x positions {response field, field of an object that narrows the interface's declaration, variable, input field, @oneOf member} x {SDL, introspection JSON} x {plain, default values on input fields, normalization rust, literal @include / @skip directives on the selections, built-in scalars re-declared in the SDL}; a case is one (shape, kind, position, format) whose emitted Rust type was read with syn and compared with the rule; non-trivial = at least one list level or a non-null marker",
     );
     let shapes = ATy::all_shapes("BASE", 4);
     let mut ctx = CaseCtx::new();
@@ -135,11 +135,12 @@ pub fn run(a: &Args) -> i32 {
 
         // the rule must not depend on the schema format, on default values written on input fields, or on the
         // normalization option (the kinds used here keep their names under Rust normalization)
-        for (is_json, variant) in [(false, "plain"), (true, "plain"), (false, "input-defaults"), (true, "input-defaults"), (false, "normalization-rust"), (true, "normalization-rust"), (false, "directives")] {
+        for (is_json, variant) in [(false, "plain"), (true, "plain"), (false, "input-defaults"), (true, "input-defaults"), (false, "normalization-rust"), (true, "normalization-rust"), (false, "directives"), (false, "builtin-scalars-redeclared")] {
             let query = build_query(&shapes, kind, variant == "directives");
             let fmt_owned = format!("{}{}", if is_json { "json" } else { "sdl" }, if variant == "plain" { String::new() } else { format!("+{}", variant) });
             let fmt = fmt_owned.as_str();
-            let knobs = RenderKnobs { input_defaults: variant == "input-defaults", ..RenderKnobs::default() };
+            // (some schema printers write `scalar ID`, `scalar String` … next to the custom scalars)
+            let knobs = RenderKnobs { input_defaults: variant == "input-defaults", sdl_builtin_scalars: variant == "builtin-scalars-redeclared", ..RenderKnobs::default() };
             let text = if is_json { serde_json::to_string_pretty(&schema.to_json(&knobs)).unwrap() } else { schema.to_sdl(&knobs) };
             let mut opts = Opts::harness();
             opts.normalization_rust = variant == "normalization-rust";
